@@ -103,6 +103,11 @@ var splitNSrc = strings.Join(strings.Fields(`{
 	return sx
 }`), "")
 
+var mnemIfRe = regexp.MustCompile(`^ifv,ok:=(StringToCertType|StringToAlgorithm)\[l\.token\];ok\{rr\.([A-Za-z]+)=v\}elseifi,err:=strconv\.ParseUint\(l\.token,10,(8|16)\);err!=nil\{return&ParseError\{\}\}else\{rr\.([A-Za-z]+)=uint(8|16)\(i\)\}$`)
+
+// certStringSrc: (*CERT).String — the certificate type and the algorithm as the mnemonic of their tables, else as numbers
+const certStringSrc = `{var(okboolcerttype,algorithmstring)ifcerttype,ok=CertTypeToString[rr.Type];!ok{certtype=strconv.Itoa(int(rr.Type))}ifalgorithm,ok=AlgorithmToString[rr.Algorithm];!ok{algorithm=strconv.Itoa(int(rr.Algorithm))}returnrr.Hdr.String()+certtype+""+strconv.Itoa(int(rr.KeyTag))+""+algorithm+""+rr.Certificate}`
+
 var firstBodyRe = regexp.MustCompile(`^\{s,e:=endingToTxtSlice\(c,"bad([A-Z0-9]+)([A-Za-z]+)"\)ife!=nil\{returne\}ifln:=len\(s\);ln==0\{returnnil\}rr\.([A-Za-z]+)=s\[0\]returnnil\}$`)
 
 type tstep struct {
@@ -154,6 +159,8 @@ func (s tstep) lean() string {
 		return fmt.Sprintf(".uintLax %d", s.Bits)
 	case "typelist":
 		return ".typeList"
+	case "mnem":
+		return fmt.Sprintf(".mnem %d %d", s.Group, s.Bits)
 	case "endstrsplit":
 		return fmt.Sprintf(".endStrSplit %d", s.Bits)
 	case "salt":
@@ -333,6 +340,17 @@ func (p *pkgInfo) parsePlanOf(fd *ast.FuncDecl, depth int) ([]tstep, bool) {
 				}
 				return nil, false
 			}
+			// a mnemonic of a table, else a number (CERT): `if v, ok := StringToX[l.token]; ok { rr.F = v } else if i, err :=
+			// strconv.ParseUint(l.token, 10, N); err != nil { return … } else { rr.F = uintN(i) }`
+			if m := mnemIfRe.FindStringSubmatch(parseErrRe.ReplaceAllString(p.src(s), "&ParseError{}")); m != nil && m[2] == m[4] && m[3] == m[5] {
+				bits, _ := strconv.Atoi(m[3])
+				tbl := map[string]int{"StringToCertType": 0, "StringToAlgorithm": 1}[m[1]]
+				if p.fieldBits(funcRecv(fd), m[2]) == bits {
+					out = append(out, tstep{Kind: "mnem", Group: tbl, Bits: bits, Field: m[2]})
+					continue
+				}
+				return nil, false
+			}
 			// the salt of NSEC3PARAM: `if l.token != "-" { rr.SaltLength = uint8(len(l.token) / 2); rr.Salt = l.token }`
 			if s.Else == nil && s.Init == nil && p.src(s) == `ifl.token!="-"{rr.SaltLength=uint8(len(l.token)/2)rr.Salt=l.token}` {
 				out = append(out, tstep{Kind: "salt", Field: "Salt"})
@@ -487,6 +505,10 @@ func (p *pkgInfo) printPlanOf(fd *ast.FuncDecl, typ string) ([]tstep, bool) {
 		if bits := p.fieldBits(typ, m[1]); bits == 16 && p.fieldBits(typ, m[3]) == 64 {
 			return []tstep{{Kind: "uint", Bits: 16, Field: m[1]}, {Kind: "blank"}, {Kind: "hexgroups", Bits: 16, Group: 4, Sep: ':', Upper: m[2] == "X", Field: m[3]}}, true
 		}
+	}
+	if typ == "CERT" && p.src(fd.Body) == certStringSrc && p.fieldBits(typ, "Type") == 16 && p.fieldBits(typ, "Algorithm") == 8 && p.fieldBits(typ, "KeyTag") == 16 && certBlanks(fd) {
+		return []tstep{{Kind: "mnem", Group: 0, Bits: 16, Field: "Type"}, {Kind: "blank"}, {Kind: "uint", Bits: 16, Field: "KeyTag"}, {Kind: "blank"},
+			{Kind: "mnem", Group: 1, Bits: 8, Field: "Algorithm"}, {Kind: "blank"}, {Kind: "endstr", Field: "Certificate"}}, true
 	}
 	if typ == "A" && p.src(fd.Body) == aStringBody {
 		return []tstep{{Kind: "ipv4", Field: "A"}}, true
@@ -668,6 +690,19 @@ func funcRecv(fd *ast.FuncDecl) string {
 		return id.Name
 	}
 	return ""
+}
+
+// certBlanks: the three string literals of (*CERT).String are single blanks (src() drops white space)
+func certBlanks(fd *ast.FuncDecl) bool {
+	n, ok := 0, true
+	ast.Inspect(fd.Body, func(x ast.Node) bool {
+		if bl, isLit := x.(*ast.BasicLit); isLit && bl.Kind == token.STRING {
+			n++
+			ok = ok && bl.Value == `" "`
+		}
+		return true
+	})
+	return ok && n == 3
 }
 
 // isTypeLoop: `for _, t := range rr.TypeBitMap { s += " " + Type(t).String() }`
